@@ -51,6 +51,39 @@ if vbody:
 else:
     empty_rejected = False
     sep_rejected = False
+# Blocking constructs in the library proper (everything before the `#[cfg(test)] mod` of each file):
+# the model's call vocabulary has none, the source must not either (C06).
+BLOCKING = [r"\bMutex\b", r"\bRwLock\b", r"\bCondvar\b", r"\bBarrier\b", r"\bOnce\b", r"\bOnceLock\b", r"\bLazyLock\b", r"\blazy_static\b",
+            r"\bcall_once\b", r"thread::sleep", r"\bpark(_timeout)?\s*\(", r"\bspin_loop\b", r"\byield_now\b", r"\bflock\b", r"\blockf\b", r"F_SETLKW?\b",
+            r"\bJoinHandle\b", r"\.join\(\)", r"\bmpsc\b", r"\bSemaphore\b"]
+blocking = []
+for fn in sorted(os.listdir(os.path.join(REPO, "src"))):
+    if not fn.endswith(".rs") or fn == "verif_hooks.rs":
+        continue
+    text = re.sub(r"//[^\n]*", "", src(fn))            # comments and doc comments
+    # remove every item guarded by #[test] or #[cfg(test)] (balanced braces, or up to ';')
+    while True:
+        m = re.search(r"#\[(?:test|cfg\(test\))\]", text)
+        if not m:
+            break
+        i = m.end()
+        while i < len(text) and text[i] not in "{;":
+            i += 1
+        if i < len(text) and text[i] == "{":
+            depth = 0
+            while i < len(text):
+                if text[i] == "{":
+                    depth += 1
+                elif text[i] == "}":
+                    depth -= 1
+                    if depth == 0:
+                        break
+                i += 1
+        text = text[:m.start()] + text[i + 1:]
+    for pat in BLOCKING:
+        for mm in re.finditer(pat, text):
+            blocking.append("%s:%s" % (fn, mm.group(0).strip("( ")))
+blocking = sorted(set(blocking))
 pfx, width, upper = None, None, None
 if fmt is not None:
     m = re.fullmatch(r"(.*)\{:0(\d+)([xX])\}", fmt)
@@ -86,9 +119,11 @@ Definition RESERVED_FIRST_BYTES : list N := [%s]%%N.
 Definition EMPTY_NAME_REJECTED : bool := %s.
 Definition SEPARATOR_REJECTED : bool := %s.
 Definition REDUCE_SHIFT : N := %s.
+(* blocking constructs found in the library proper (file:token) *)
+Definition BLOCKING_PRIMITIVES : list string := [%s].
 """ % (vals["PLAIN_MAINTENANCE_SCALE"], vals["SHARDED_MAINTENANCE_SCALE"], vals["DELTA_SEC"], vals["MAX_TEMP_FILE_AGE_SEC"],
        coq_string(prim), coq_string(sec), coq_string(pfx), width, "true" if upper else "false", coq_string(temp),
-       "; ".join(str(b) for b in reserved), "true" if empty_rejected else "false", "true" if sep_rejected else "false", shift)
+       "; ".join(str(b) for b in reserved), "true" if empty_rejected else "false", "true" if sep_rejected else "false", shift, "; ".join(coq_string(b) for b in blocking))
     rc = 0
 old = open(OUT).read() if os.path.exists(OUT) else None
 if old != body:
